@@ -5,6 +5,7 @@ import math
 import numpy as np
 
 from .common import quiet, close
+from .common import guarded
 from . import krig, c07
 
 INFO = dict(
@@ -22,6 +23,7 @@ def conds(case, ok, targets):
     return None
 
 
+@guarded
 def check_case(ctx, case):
     targets = np.array(case['targets'], float)
     values = np.array(case['values'], float)
